@@ -79,6 +79,20 @@ CLAIMED["C29"] = (
     "DESIGN.md §4 C29",
 )
 
+CLAIMED["C06"] = (
+    "DbImpl<Store> is a deterministic function of the answers its StorageData gives, so the variants return identical "
+    "query results iff they are observationally equal as StorageData. Each variant (MemoryStorage, FileStorage, "
+    "FileStorageMemoryMapped and the three AnyStorage arms, incl. what AnyStorage::new builds) is compared call by call "
+    "against ONE reference byte-array model for all symbolic contents, positions and lengths within the bounds: same "
+    "Ok/Err, len(), is_empty(), full content and arbitrary read windows; the memory-mapped variant's file copy is also "
+    "compared with its memory copy.",
+    "Contract domain: writes start at or before the end (what Storage issues; checked by the C04 harnesses), reads inside "
+    "the content. File-backed variants run over the model file system. Quick tier: 1 call per variant; thorough: 2 calls. "
+    "Outside: the step from equal StorageData behaviour to equal query results is the determinism argument, not executed; "
+    "backup/copy/rename (real file system calls).",
+    "DESIGN.md §4 C06",
+)
+
 NOT_APPLICABLE = {
 }
 
